@@ -39,6 +39,9 @@ def main(argv):
         eng = engine_for(prop)
         print(json.dumps(eng.det_fingerprints(prop, master, idxs, k)))
         return 0
+    if len(argv) >= 2 and argv[0] == '--c19-fresh':
+        from simkit import schemasim
+        return schemasim.fresh_one(argv[1])
     if not argv:
         print(__doc__)
         return 2
